@@ -933,3 +933,9 @@ func init() {
 	mutant("timeout-arm-drops-one-too-many", "stream-birth-and-timeout", "serverConn.go", "			for deleteUntil > 0 {", "			for deleteUntil >= 0 {")
 	mutant("timeout-arm-counts-past-a-stream-not-due", "stream-birth-and-timeout", "serverConn.go", "				if !isDue {\n					break\n				}", "				if !isDue {\n					continue\n				}")
 }
+
+func init() {
+	mutant("goaway-zero-leaves-the-requests-to-the-write-loop", "client-goaway-drain", "conn.go", "				c.failAbove(0)\n\n				_ = c.c.Close()", "				_ = c.c.Close()")
+	mutant("reset-with-flow-control-code-ends-the-connection", "client-block-state", "conn.go", "	stop = stop || (fr.Type() != FrameResetStream && errors.Is(err, FlowControlError))", "	stop = stop || errors.Is(err, FlowControlError)")
+	mutant("retry-appends-to-the-first-attempts-response", "client-pool-shape", "client.go", "		res.Reset()\n", "")
+}
